@@ -151,7 +151,10 @@ type Config struct {
 
 type run struct {
 	cfg      Config
-	threads  []*Thread
+	threads  []*Thread // every thread ever created (reports)
+	active   []*Thread // threads that have not finished (scanned by the scheduler)
+	ndone    int
+	doneSum  uint64
 	last     *Thread
 	clock    int64
 	clockHB  uint64
@@ -257,6 +260,7 @@ func (r *run) spawn(name string, f func()) *Thread {
 		t.hb = mix(r.clockHB, uint64(len(r.threads)), 0x1234567)
 	}
 	r.threads = append(r.threads, t)
+	r.active = append(r.active, t)
 	r.live.Add(1)
 	go t.main(r, f)
 	return t
@@ -275,6 +279,7 @@ func (t *Thread) main(r *run, f func()) {
 		}
 		t.state = stDone
 		t.op = opNone
+		r.ndone++
 		r.live.Done()
 		r.schedG.signal()
 	}()
@@ -449,9 +454,10 @@ func (r *run) choose(n int, costs []int8, data bool, fp uint64) int {
 
 func (r *run) fingerprint() uint64 {
 	var s uint64
-	for _, t := range r.threads {
+	for _, t := range r.active {
 		s += mix(t.hb, uint64(t.op), uint64(t.state))
 	}
+	s += r.doneSum // finished threads that were compacted away still count
 	s = mix(s, r.clockHB, uint64(r.clock))
 	return s
 }
@@ -464,9 +470,25 @@ func (r *run) loop() {
 			r.hit = true
 			return
 		}
+		if r.ndone > 16 && r.ndone*2 > len(r.active) {
+			k := 0
+			for _, t := range r.active {
+				if t.state != stDone {
+					r.active[k] = t
+					k++
+				} else {
+					r.doneSum += mix(t.hb, uint64(t.op), uint64(t.state))
+				}
+			}
+			for i := k; i < len(r.active); i++ {
+				r.active[i] = nil
+			}
+			r.active = r.active[:k]
+			r.ndone = 0
+		}
 		en = en[:0]
 		var curEn *Thread
-		for _, t := range r.threads {
+		for _, t := range r.active {
 			if t.state == stPending && t.op != opIdle && r.enabled(t) {
 				if t == r.last {
 					curEn = t
@@ -484,7 +506,7 @@ func (r *run) loop() {
 		due := r.timers.Len() > 0 && r.timers.peek().when <= r.clock
 		if nonIdle == 0 && !due {
 			// idle waiters become enabled
-			for _, t := range r.threads {
+			for _, t := range r.active {
 				if t.state == stPending && t.op == opIdle {
 					en = append(en, t)
 				}
